@@ -1,5 +1,5 @@
 import CoolerModel.Model.Create
-import CoolerModel.Props.C02
+import CoolerModel.Props.C02Core
 import CoolerModel.Props.C03
 /-!
 # C01 — create-then-read round trip returns exactly the matrix that was stored
